@@ -186,6 +186,7 @@ class Runtime:
         self.calls = {}        # node index -> last invocation (arguments, attempt index, raised?) of this run
         self.counters = {}
         self.run_tag = 0
+        self.reused = []       # node indices whose body / get_default ran on an object that had already served an invocation
 
     def count(self, key):
         k = self.counters.get(key, 0)
@@ -237,6 +238,16 @@ def materialize(spec, rt_holder, tag=''):
         rt.calls[i] = dict(ck=ck, a=a, raised=False, task=task)
         return a, ck
 
+    def probe_object(self, rt, i):
+        # the engine runs every invocation (each attempt, each get_default) on a node object of its own: an object that has already
+        # served an invocation would carry per-object state of user nodes from one invocation / run into another (C07, C08)
+        if getattr(self, '_verif_used', False):
+            rt.reused.append(i)
+        try:
+            self._verif_used = True
+        except Exception:  # noqa: BLE001
+            pass
+
     def compute(i, nd, kwargs, a, self):
         fails = nd['fails']
         if fails:
@@ -269,6 +280,7 @@ def materialize(spec, rt_holder, tag=''):
             if mode in ('gated', 'immediate'):
                 async def process(self, **kwargs):
                     rt = rt_holder[0]
+                    probe_object(self, rt, i)
                     a, ck = outcome(i, nd, kwargs, rt)
                     k = rt.count(('b', i))
                     rt.trace.append(['start', i, k, ck])
@@ -278,6 +290,7 @@ def materialize(spec, rt_holder, tag=''):
             else:
                 def process(self, **kwargs):
                     rt = rt_holder[0]
+                    probe_object(self, rt, i)
                     a, ck = outcome(i, nd, kwargs, rt)
                     k = rt.count(('b', i))
                     rt.trace.append(['start', i, k, ck])
@@ -288,6 +301,7 @@ def materialize(spec, rt_holder, tag=''):
 
             def get_default(self, **kwargs):
                 rt = rt_holder[0]
+                probe_object(self, rt, i)
                 rt.calls.pop(i, None)
                 rt.trace.append(['default', i, canon_kwargs(kwargs)])
                 return ('d', i, tuple(sorted((canon_key(k), v) for k, v in kwargs.items())))
